@@ -108,6 +108,37 @@ theorem C19_walk_virtual {fold : Char → List Char} (hF : FoldOK fold) (F : Fil
       | cons _ _ => rfl
     simp [h, he]
 
+/-- VPK compares the folder with the directory part of a name; with a terminating separator on both
+sides that is the same as comparing it with the whole name. -/
+theorem vpk_dir_match {fold : Char → List Char} (hF : FoldOK fold) (D : Str) (hne : D ≠ []) (name : Str) :
+    (D ++ ['/']).isPrefixOf (foldStr fold (dirOf name) ++ ['/']) = (D ++ ['/']).isPrefixOf (foldStr fold name) := by
+  obtain ⟨base, hb, hcase⟩ := name_dir_base name
+  have hfb := foldStr_no_sep hF base hb
+  rw [Bool.eq_iff_iff]
+  simp only [List.isPrefixOf_iff_prefix]
+  rcases hcase with ⟨hi, hn⟩ | ⟨_, hn⟩
+  · -- top-level file: no directory part
+    have hdir : dirOf name = [] := by simp [dirOf, hi, joinWith]
+    have hnil : foldStr fold ([] : Str) = [] := rfl
+    have hke : foldStr fold name = foldStr fold base := by rw [← hn]
+    rw [hdir, hnil, List.nil_append, hke]
+    constructor
+    · intro hp
+      exfalso
+      have := List.IsPrefix.length_le hp
+      simp only [List.length_append, List.length_cons, List.length_nil] at this
+      exact hne (List.length_eq_zero_iff.mp (by omega))
+    · intro hp
+      exfalso
+      apply hfb
+      exact (List.IsPrefix.subset hp) (by simp)
+  · have hk : foldStr fold name = foldStr fold (dirOf name) ++ '/' :: foldStr fold base := by
+      conv => lhs; rw [hn]
+      rw [foldStr_append, foldStr_cons, hF.sl]; rfl
+    have := prefix_dir_iff D (foldStr fold (dirOf name)) (foldStr fold base) hfb
+    rw [← hk] at this
+    exact this.symm
+
 /-- **Walk lists exactly the folder (VPK).** VPK matches on the directory part of each stored
 name; that is the same set. -/
 theorem C19_walk_vpk {fold : Char → List Char} (hF : FoldOK fold) (F : FileSet) (hN : NormNames F)
@@ -130,32 +161,43 @@ theorem C19_walk_vpk {fold : Char → List Char} (hF : FoldOK fold) (F : FileSet
   | false =>
     have hne : keyZ fold d ≠ [] := by intro e0; simp [e0] at h
     simp only [Bool.not_false, if_true, Bool.false_or]
-    obtain ⟨base, hb, hcase⟩ := name_dir_base e.name
-    have hfb := foldStr_no_sep hF base hb
-    rw [Bool.eq_iff_iff]
-    simp only [List.isPrefixOf_iff_prefix]
-    rcases hcase with ⟨hi, hn⟩ | ⟨_, hn⟩
-    · -- top-level file: no directory part
-      have hdir : dirOf e.name = [] := by simp [dirOf, hi, joinWith]
-      have hnil : foldStr fold ([] : Str) = [] := rfl
-      have hke : foldStr fold e.name = foldStr fold base := by rw [← hn]
-      rw [hdir, hnil, List.nil_append, hke]
-      constructor
-      · intro hp
-        exfalso
-        have := List.IsPrefix.length_le hp
-        simp only [List.length_append, List.length_cons, List.length_nil] at this
-        exact hne (List.length_eq_zero_iff.mp (by omega))
-      · intro hp
-        exfalso
-        apply hfb
-        exact (List.IsPrefix.subset hp) (by simp)
-    · have hk : foldStr fold e.name = foldStr fold (dirOf e.name) ++ '/' :: foldStr fold base := by
-        conv => lhs; rw [hn]
-        rw [foldStr_append, foldStr_cons, hF.sl]; rfl
-      have := prefix_dir_iff (keyZ fold d) (foldStr fold (dirOf e.name)) (foldStr fold base) hfb
-      rw [← hk] at this
-      exact this.symm
+    exact vpk_dir_match hF (keyZ fold d) hne e.name
+
+/-- **A folder given with one trailing separator** (`"materials/"`, what a chain passes for the
+root of a prefixed member) lists the same as without it: zip … -/
+theorem C19_walk_zip_slash (fold : Char → List Char) (F : FileSet) (hN : NormNames F) (d D : Str)
+    (hD : D ≠ []) (hd : keyZ fold d = D ++ ['/']) :
+    walkZ .fixed fold F d = walkSpec fold F D := by
+  have hZ : mapZ fold F = dictOf (F.map fun e => (foldStr fold e.name, e)) := by
+    unfold mapZ
+    congr 2
+    apply List.filter_eq_self.mpr
+    intro e he
+    simp [(hN e he).2.2]
+  have hends : endsWithSep (D ++ ['/']) = true := by simp [endsWithSep]
+  have hemp : D.isEmpty = false := by cases D with | nil => exact absurd rfl hD | cons _ _ => rfl
+  unfold walkZ walkSpec
+  simp only [hZ, hd, hends, WalkCfg.fixed, Bool.not_true, Bool.and_false, Bool.false_eq_true, if_false]
+  congr 2
+  funext kv
+  simp [inFolder, hemp]
+
+/-- … and VPK. (The in-memory filesystem normalises the folder first: `C19_walk_virtual`.) -/
+theorem C19_walk_vpk_slash {fold : Char → List Char} (hF : FoldOK fold) (F : FileSet) (hN : NormNames F)
+    (d D : Str) (hD : D ≠ []) (hd : keyZ fold d = D ++ ['/']) :
+    walkP .fixed fold F d = walkSpec fold F D := by
+  obtain ⟨_, _, hP⟩ := C19_same_dict hF F hN
+  have hends : endsWithSep (D ++ ['/']) = true := by simp [endsWithSep]
+  have hemp : D.isEmpty = false := by cases D with | nil => exact absurd rfl hD | cons _ _ => rfl
+  unfold walkP walkSpec
+  simp only [hP, hd, hends, WalkCfg.fixed, Bool.not_true, Bool.and_false, Bool.false_eq_true, if_false, if_true]
+  congr 1
+  apply List.filter_congr
+  intro kv hkv
+  have hmem := mem_dictOf _ kv hkv
+  obtain ⟨e, _, rfl⟩ := List.mem_map.mp hmem
+  simp only [inFolder, hemp, Bool.false_or]
+  exact vpk_dir_match hF D hD e.name
 
 /-- **Every listed name can be looked up and yields that file** (in-memory; any folder,
 any file set, before and after the fixes). -/
@@ -391,5 +433,354 @@ theorem C19_history_append (E : Env) (name : Str) (ms : List Member) (m : Member
         · exact ih hmiss m' hm'
       · cases hmiss
   simpa [applyOp, addSys] using C19_chain_first E name ms m [] p i hall hm
+
+end C19
+
+/-! ## auxiliary definitions and lemmas for the chain-walk theorems -/
+
+namespace C19
+open Path C18
+
+/-- The folder a member is asked to walk is the root (`""`) or — after dropping one trailing
+separator — a non-empty normal relative path whose folded form is non-degenerate. -/
+def FolderOK (fold : Char → List Char) (x : Str) : Prop :=
+  x = [] ∨ (NormRel (stripSep x) ∧ stripSep x ≠ [] ∧ keyZ fold (stripSep x) ≠ [] ∧
+    keyZ fold (stripSep x) ≠ dot ∧ endsWithSep (keyZ fold (stripSep x)) = false)
+
+theorem keyZ_append_sep {fold : Char → List Char} (hF : FoldOK fold) (x : Str) :
+    keyZ fold (x ++ ['/']) = keyZ fold x ++ ['/'] := by
+  simp only [keyZ, replaceBS_append, foldStr_append]
+  have : replaceBS ['/'] = ['/'] := by decide
+  rw [this]
+  simp [foldStr, hF.sl]
+
+/-- All three archive-like backends list exactly `walkSpec` of the folded folder (one trailing
+separator ignored). -/
+theorem walk_eq_spec (E : Env) (hF : FoldOK E.fold) (hdot : E.fold '.' = ['.']) (F : FileSet)
+    (hN : NormNames F) (x : Str) (hx : FolderOK E.fold x) :
+    walkV .fixed E.fold F x = walkSpec E.fold F (keyZ E.fold (stripSep x)) ∧
+    walkZ .fixed E.fold F x = walkSpec E.fold F (keyZ E.fold (stripSep x)) ∧
+    walkP .fixed E.fold F x = walkSpec E.fold F (keyZ E.fold (stripSep x)) := by
+  rcases hx with rfl | ⟨hrel, hne, hk1, hk2, hk3⟩
+  · have hs : stripSep ([] : Str) = [] := rfl
+    have hkz : endsWithSep (keyZ E.fold []) = false := rfl
+    rw [hs]
+    refine ⟨?_, C19_walk_zip E.fold F hN [] hkz, C19_walk_vpk hF F hN [] hkz⟩
+    have hc : cleanV E.fold [] = dot := by
+      simp [cleanV, normpath, dot, replaceBS, foldStr, hdot]
+    rw [C19_walk_virtual hF F hN [] (by rw [hc]; rfl) (by rw [hc]; decide)]
+    simp [hc, keyZ, replaceBS, foldStr]
+  · obtain ⟨hn1, hn2⟩ := normpath_normRel (stripSep x) hrel hne
+    rcases stripSep_cases x with ⟨_, hs⟩ | ⟨_, hs⟩
+    · -- no trailing separator
+      rw [hs] at hn1 hk1 hk2 hk3 ⊢
+      refine ⟨?_, C19_walk_zip E.fold F hN x hk3, C19_walk_vpk hF F hN x hk3⟩
+      have hc : cleanV E.fold x = keyZ E.fold x := by simp [cleanV, keyZ, hn1]
+      rw [C19_walk_virtual hF F hN x (by rw [hc]; exact hk3) (by rw [hc]; exact hk1)]
+      simp [hc, hk2]
+    · -- one trailing separator
+      have hkx : keyZ E.fold x = keyZ E.fold (stripSep x) ++ ['/'] := by
+        conv => lhs; rw [hs]
+        exact keyZ_append_sep hF _
+      refine ⟨?_, C19_walk_zip_slash E.fold F hN x _ hk1 hkx, C19_walk_vpk_slash hF F hN x _ hk1 hkx⟩
+      have hc : cleanV E.fold x = keyZ E.fold (stripSep x) := by
+        conv => lhs; rw [hs]
+        simp [cleanV, keyZ, hn2]
+      rw [C19_walk_virtual hF F hN x (by rw [hc]; exact hk3) (by rw [hc]; exact hk1)]
+      simp [hc, hk2]
+
+theorem walkB_spec (E : Env) (hE : E.walkCfg = .fixed) (hF : FoldOK E.fold)
+    (hdot : E.fold '.' = ['.']) (b : Backend) (hk : b.kind ≠ .raw) (hN : NormNames b.files)
+    (x : Str) (hx : FolderOK E.fold x) :
+    walkB E b x = .ok ((walkSpec E.fold b.files (keyZ E.fold (stripSep x))).map fun y => (y.1, y.2.id)) := by
+  obtain ⟨hv, hz, hp⟩ := walk_eq_spec E hF hdot b.files hN x hx
+  unfold walkB
+  cases hkind : b.kind with
+  | raw => exact absurd hkind hk
+  | zip => simp only [hE, hz]
+  | vpk => simp only [hE, hp]
+  | virt => simp only [hE, hv]
+
+/-- Hypotheses on one chain member for the folder `d` (`PrefixExact` is the field `exact`). -/
+structure MemberOK (E : Env) (d : Str) (m : Member) : Prop where
+  notRaw : m.b.kind ≠ .raw
+  names : NormNames m.b.files
+  namesRel : ∀ e ∈ m.b.files, NormRel e.name ∧ e.name ≠ []
+  pfx : NormRel m.pfx
+  folder : FolderOK E.fold (replaceBS (join2 m.pfx d))
+  /-- PrefixExact: stored names inside the (case-folded) prefix folder spell it exactly. -/
+  exact : m.pfx ≠ [] → ∀ e ∈ m.b.files,
+    inFolder (keyZ E.fold m.pfx) (foldStr E.fold e.name) = true → (m.pfx ++ ['/']) <+: e.name
+
+/-- What a chain walk lists for one member: the stored names inside `prefix/d`, each expressed
+relative to the prefix, with the member's content. -/
+def memberListing (E : Env) (d : Str) (m : Member) : List (Str × Nat) :=
+  (walkSpec E.fold m.b.files (keyZ E.fold (stripSep (replaceBS (join2 m.pfx d))))).map
+    fun y => (stripPfx m.pfx y.1, y.2.id)
+
+theorem no_bs_joinWith (cs : List Str) (hc : ∀ c ∈ cs, '\\' ∉ c) : '\\' ∉ joinWith '/' cs := by
+  induction cs with
+  | nil => simp [joinWith]
+  | cons x r ih =>
+    rw [joinWith_cons_eq]
+    intro hm
+    rcases List.mem_append.mp hm with hm | hm
+    · exact hc x List.mem_cons_self hm
+    · obtain ⟨y, hy, hmy⟩ := List.mem_flatMap.mp hm
+      rcases List.mem_cons.mp hmy with e | hmy
+      · exact absurd e (by decide)
+      · exact hc y (List.mem_cons_of_mem _ hy) hmy
+
+theorem normRel_no_bs (p : Str) (h : NormRel p) : '\\' ∉ p := by
+  rw [h.1]
+  exact no_bs_joinWith _ (fun c hc => (h.2 c hc).2.2)
+
+theorem mem_walkSpec {fold : Char → List Char} {F : FileSet} {D : Str} {y : Str × FEnt}
+    (h : y ∈ walkSpec fold F D) :
+    y.2 ∈ F ∧ y.1 = y.2.name ∧ inFolder D (foldStr fold y.2.name) = true := by
+  unfold walkSpec at h
+  obtain ⟨kv, hkv, rfl⟩ := List.mem_map.mp h
+  obtain ⟨hd, hin⟩ := List.mem_filter.mp hkv
+  obtain ⟨e, he, rfl⟩ := List.mem_map.mp (mem_dictOf _ kv hd)
+  exact ⟨he, rfl, hin⟩
+
+theorem normRel_endsWithSep (p : Str) (hp : NormRel p) (hpe : p ≠ []) : endsWithSep p = false := by
+  have hpc : comps p ≠ [] := by intro e; apply hpe; rw [hp.1, e]; rfl
+  have hl : comps p = (comps p).dropLast ++ [(comps p).getLast hpc] :=
+    (List.dropLast_concat_getLast hpc).symm
+  have hlast := mem_comps p _ (List.getLast_mem hpc)
+  rw [hp.1, hl]
+  by_cases hdl : (comps p).dropLast = []
+  · rw [hdl]; simp only [List.nil_append, joinWith]
+    simpa using endsWithSep_append_clean [] _ hlast.1 hlast.2
+  · rw [joinWith_append '/' _ _ [] hdl]
+    simp only [joinWith]
+    have : joinWith '/' (comps p).dropLast ++ '/' :: (comps p).getLast hpc
+        = (joinWith '/' (comps p).dropLast ++ ['/']) ++ (comps p).getLast hpc := by simp
+    rw [this]
+    exact endsWithSep_append_clean _ _ hlast.1 hlast.2
+
+/-- the folded prefix folder contains what the folded `prefix/d` folder contains. -/
+theorem inFolder_prefix {fold : Char → List Char} (hF : FoldOK fold) (p d k : Str) (hp : NormRel p)
+    (hpe : p ≠ []) (hd : isAbs d = false)
+    (h : inFolder (keyZ fold (stripSep (replaceBS (join2 p d)))) k = true) :
+    inFolder (keyZ fold p) k = true := by
+  have hpend := normRel_endsWithSep p hp hpe
+  have hj : join2 p d = p ++ '/' :: d := by unfold join2; simp [hd, hpe, hpend]
+  have hbs := replaceBS_of_not_mem p (normRel_no_bs p hp)
+  have hx : replaceBS (join2 p d) = (p ++ ['/']) ++ replaceBS d := by
+    rw [hj, replaceBS_append, hbs]
+    simp [replaceBS]
+  rw [hx] at h
+  by_cases hde : replaceBS d = []
+  · rw [hde, List.append_nil, stripSep_append p ['/'] (by simp)] at h
+    have : stripSep ['/'] = [] := by decide
+    rw [this, List.append_nil] at h
+    exact h
+  · rw [stripSep_append _ _ hde] at h
+    have hk : keyZ fold (p ++ ['/'] ++ stripSep (replaceBS d))
+        = keyZ fold p ++ '/' :: keyZ fold (stripSep (replaceBS d)) := by
+      rw [List.append_assoc]
+      simp only [keyZ, replaceBS_append, foldStr_append]
+      have : replaceBS ['/'] = ['/'] := by decide
+      rw [this]
+      simp [foldStr, hF.sl]
+    rw [hk] at h
+    unfold inFolder at h ⊢
+    have hne : (keyZ fold p ++ '/' :: keyZ fold (stripSep (replaceBS d))).isEmpty = false := by
+      cases keyZ fold p <;> rfl
+    rw [hne, Bool.false_or, List.isPrefixOf_iff_prefix] at h
+    simp only [Bool.or_eq_true, List.isPrefixOf_iff_prefix]
+    right
+    refine List.IsPrefix.trans ?_ h
+    exact ⟨keyZ fold (stripSep (replaceBS d)) ++ ['/'], by simp⟩
+
+/-- One member's contribution to a chain walk. -/
+theorem member_walk (E : Env) (hE : E.walkCfg = .fixed) (hF : FoldOK E.fold)
+    (hdot : E.fold '.' = ['.']) (hcwd : NormalAbs E.cwd) (d : Str) (hd : isAbs d = false)
+    (m : Member) (h : MemberOK E d m) :
+    ∃ fl, walkB E m.b (replaceBS (join2 m.pfx d)) = .ok fl ∧
+      fl.map (fun x => (replaceBS ((relpath E.cwd x.1
+          (if E.rawCfg.chainRelSlash then replaceBS m.pfx else m.pfx)).getD []), x.2))
+        = memberListing E d m := by
+  refine ⟨_, walkB_spec E hE hF hdot m.b h.notRaw h.names _ h.folder, ?_⟩
+  have hpbs := replaceBS_of_not_mem m.pfx (normRel_no_bs m.pfx h.pfx)
+  have hpfx : (if E.rawCfg.chainRelSlash then replaceBS m.pfx else m.pfx) = m.pfx := by
+    split <;> simp [hpbs]
+  rw [hpfx]
+  unfold memberListing
+  rw [List.map_map]
+  apply List.map_congr_left
+  intro y hy
+  obtain ⟨hmem, hname, hin⟩ := mem_walkSpec hy
+  obtain ⟨hrel, hne⟩ := h.namesRel y.2 hmem
+  have hpre : m.pfx ≠ [] → (m.pfx ++ ['/']) <+: y.2.name := fun hpe =>
+    h.exact hpe y.2 hmem (inFolder_prefix hF m.pfx d _ h.pfx hpe hd hin)
+  obtain ⟨hr, _, _⟩ := relpath_strip E.cwd m.pfx y.2.name hcwd h.pfx hrel hne hpre
+  simp only [Function.comp, hname, hr, Option.getD_some]
+  have hnb : '\\' ∉ stripPfx m.pfx y.2.name := by
+    have hnb0 := normRel_no_bs y.2.name hrel
+    unfold stripPfx
+    split
+    · exact hnb0
+    · exact fun hm => hnb0 (List.mem_of_mem_drop hm)
+  rw [replaceBS_of_not_mem _ hnb]
+
+/-- **Chain walk lists exactly each member's folder, relative to its prefix.** -/
+theorem chain_walk_repeat (E : Env) (hE : E.walkCfg = .fixed) (hF : FoldOK E.fold)
+    (hdot : E.fold '.' = ['.']) (hcwd : NormalAbs E.cwd) (d : Str) (hd : isAbs d = false)
+    (ms : List Member) (h : ∀ m ∈ ms, MemberOK E d m) :
+    chainWalkRepeat E d ms = .ok (ms.flatMap (memberListing E d)) := by
+  induction ms with
+  | nil => rfl
+  | cons m ms ih =>
+    obtain ⟨fl, hfl, hmap⟩ := member_walk E hE hF hdot hcwd d hd m (h m List.mem_cons_self)
+    rw [chainWalkRepeat, hfl]
+    simp only [bind, Except.bind]
+    rw [ih (fun x hx => h x (List.mem_cons_of_mem _ hx))]
+    simp only [pure, Except.pure, List.flatMap_cons]
+    rw [hmap]
+
+
+theorem lookup_not_escape (E : Env) (b : Backend) (hk : b.kind ≠ .raw) (q : Str) :
+    lookup E b q ≠ .error .escape := by
+  unfold lookup
+  cases hkind : b.kind with
+  | raw => exact absurd hkind hk
+  | virt => simp only; split <;> simp
+  | zip => simp only; split <;> simp
+  | vpk => simp only; split <;> simp
+
+/-- In a chain, the first member whose own lookup succeeds answers; members before it that are not
+directory filesystems cannot abort the search. -/
+theorem chain_found (E : Env) (name : Str) (pre : List Member) (m : Member) (post : List Member)
+    (hpre : ∀ m' ∈ pre, m'.b.kind ≠ .raw) (p : Str) (i : Nat)
+    (hm : lookup E m.b (replaceBS (join2 m.pfx name)) = .ok (p, i)) :
+    ∃ full i', chainLookup E name (pre ++ m :: post) = .ok (full, i') ∧
+      ((i' = i ∧ ∀ m' ∈ pre, lookup E m'.b (replaceBS (join2 m'.pfx name)) = .error .notFound) ∨
+       ∃ m' ∈ pre, ∃ p', lookup E m'.b (replaceBS (join2 m'.pfx name)) = .ok (p', i')) := by
+  induction pre with
+  | nil =>
+    refine ⟨replaceBS (join2 m.pfx name), i, ?_, Or.inl ⟨rfl, by simp⟩⟩
+    simp [chainLookup, hm]
+  | cons x pre ih =>
+    simp only [List.cons_append]
+    rw [chainLookup]
+    cases hx : lookup E x.b (replaceBS (join2 x.pfx name)) with
+    | ok r =>
+      obtain ⟨p', i'⟩ := r
+      exact ⟨replaceBS (join2 x.pfx name), i', rfl, Or.inr ⟨x, List.mem_cons_self, p', hx⟩⟩
+    | error e =>
+      cases e with
+      | escape => exact absurd hx (lookup_not_escape E x.b (hpre x List.mem_cons_self) _)
+      | notFound =>
+        obtain ⟨full, i', h1, h2⟩ := ih (fun m' hm' => hpre m' (List.mem_cons_of_mem _ hm'))
+        refine ⟨full, i', h1, ?_⟩
+        rcases h2 with ⟨e1, e2⟩ | ⟨m', hm', p', hp'⟩
+        · left
+          refine ⟨e1, ?_⟩
+          intro m' hm'
+          rcases List.mem_cons.mp hm' with rfl | hm'
+          · exact hx
+          · exact e2 m' hm'
+        · right; exact ⟨m', List.mem_cons_of_mem _ hm', p', hp'⟩
+
+/-- A name listed for member `m` looks up, in `m` itself, to the listed content. -/
+theorem lookup_listed (E : Env) (hF : FoldOK E.fold) (hdot : E.fold '.' = ['.'])
+    (hcwd : NormalAbs E.cwd) (d : Str) (hd : isAbs d = false) (m : Member) (h : MemberOK E d m)
+    (x : Str × Nat) (hx : x ∈ memberListing E d m) :
+    ∃ p, lookup E m.b (replaceBS (join2 m.pfx x.1)) = .ok (p, x.2) := by
+  unfold memberListing at hx
+  obtain ⟨y, hy, rfl⟩ := List.mem_map.mp hx
+  obtain ⟨hmem, hname, hin⟩ := mem_walkSpec hy
+  obtain ⟨hrel, hne⟩ := h.namesRel y.2 hmem
+  have hpre : m.pfx ≠ [] → (m.pfx ++ ['/']) <+: y.2.name := fun hpe =>
+    h.exact hpe y.2 hmem (inFolder_prefix hF m.pfx d _ h.pfx hpe hd hin)
+  obtain ⟨_, _, hjoin⟩ := relpath_strip E.cwd m.pfx y.2.name hcwd h.pfx hrel hne hpre
+  simp only [hname, hjoin, replaceBS_of_not_mem _ (normRel_no_bs _ hrel)]
+  have hy' : (y.2.name, y.2) ∈ walkSpec E.fold m.b.files (keyZ E.fold (stripSep (replaceBS (join2 m.pfx d)))) := by
+    have : y = (y.2.name, y.2) := by rw [← hname]
+    rw [← this]; exact hy
+  obtain ⟨hv, hz, hp⟩ := walk_eq_spec E hF hdot m.b.files h.names _ h.folder
+  unfold lookup
+  cases hkind : m.b.kind with
+  | raw => exact absurd hkind h.notRaw
+  | virt =>
+    rw [← hv] at hy'
+    simp only [C19_walk_sound_virtual _ _ _ _ _ _ hy']
+    exact ⟨_, rfl⟩
+  | zip =>
+    rw [← hz] at hy'
+    simp only [C19_walk_sound_zip _ _ _ (fun e he => (h.names e he).2.1) _ _ _ hy']
+    exact ⟨_, rfl⟩
+  | vpk =>
+    rw [← hp] at hy'
+    have := C19_walk_sound_vpk _ _ _ _ _ _ hy'
+    cases hl : lookupP E.fold m.b.files y.2.name with
+    | none => rw [hl] at this; cases this
+    | some r =>
+      rw [hl] at this
+      simp only [Option.map_some, Option.some.injEq] at this
+      obtain ⟨p, e⟩ := r
+      simp only at this
+      subst this
+      exact ⟨_, rfl⟩
+
+end C19
+
+namespace C19
+open Path C18
+
+/-- **Chain walk, relative-path part.** Under `MemberOK` for every member (no directory members;
+normalised stored names and prefixes; `PrefixExact`: names inside the case-folded prefix folder spell
+the prefix exactly), for a relative folder `d`: `walk_folder_repeat d` lists exactly, member after
+member, the stored names located inside `prefix/d` (case-insensitively), each expressed relative
+to the member's prefix (`os.path.relpath` as coded) with the member's content; `walk_folder d` is
+its de-duplication (see `C19_dedup`). -/
+theorem C19_chain_walk (E : Env) (hE : E.walkCfg = .fixed) (hF : FoldOK E.fold)
+    (hdot : E.fold '.' = ['.']) (hcwd : NormalAbs E.cwd) (d : Str) (hd : isAbs d = false)
+    (ms : List Member) (h : ∀ m ∈ ms, MemberOK E d m) :
+    chainWalkRepeat E d ms = .ok (ms.flatMap (memberListing E d)) ∧
+    chainWalk E d ms = .ok (C18.dedupFold E.fold [] (ms.flatMap (memberListing E d))) := by
+  have h1 := chain_walk_repeat E hE hF hdot hcwd d hd ms h
+  refine ⟨h1, ?_⟩
+  unfold chainWalk
+  rw [h1]
+  rfl
+
+/-- **Walk vs. lookup across the chain.** Every name listed for member `m` looks up through the
+chain: the answer is `m`'s listed content when no earlier member has that name, and otherwise the
+content of an earlier member that has it (shadowing). -/
+theorem C19_chain_walk_sound (E : Env) (hF : FoldOK E.fold) (hdot : E.fold '.' = ['.'])
+    (hcwd : NormalAbs E.cwd) (d : Str) (hd : isAbs d = false)
+    (pre : List Member) (m : Member) (post : List Member)
+    (hpre : ∀ m' ∈ pre, m'.b.kind ≠ .raw) (hm : MemberOK E d m)
+    (x : Str × Nat) (hx : x ∈ memberListing E d m) :
+    ∃ full i', chainLookup E x.1 (pre ++ m :: post) = .ok (full, i') ∧
+      ((i' = x.2 ∧ ∀ m' ∈ pre, lookup E m'.b (replaceBS (join2 m'.pfx x.1)) = .error .notFound) ∨
+       ∃ m' ∈ pre, ∃ p', lookup E m'.b (replaceBS (join2 m'.pfx x.1)) = .ok (p', i')) := by
+  obtain ⟨p, hp⟩ := lookup_listed E hF hdot hcwd d hd m hm x hx
+  exact chain_found E x.1 pre m post hpre p x.2 hp
+
+/-- Non-vacuity of `MemberOK` and the shape of a listing: prefix `mat`, folder `""`, stored
+`mat/sub/c` and `b` — the walk lists `sub/c` only. -/
+example :
+    let fold : Char → List Char := fun c => [c]
+    let E : Env := ⟨.fixed, ⟨.sepTerminated, true, true⟩, fold, ['/','w']⟩
+    let F : FileSet := [⟨['m','a','t','/','s','u','b','/','c'], 1⟩, ⟨['b'], 2⟩]
+    chainWalk E [] [⟨⟨.zip, F, []⟩, ['m','a','t']⟩, ⟨⟨.virt, F, []⟩, []⟩]
+      = .ok [(['s','u','b','/','c'], 1), (['m','a','t','/','s','u','b','/','c'], 1), (['b'], 2)] := by
+  decide +kernel
+
+/-- The hypotheses are satisfiable: the zip member of the example above satisfies `MemberOK`. -/
+example :
+    MemberOK ⟨.fixed, ⟨.sepTerminated, true, true⟩, fun c => [c], ['/','w']⟩ []
+      ⟨⟨.zip, [⟨['m','a','t','/','s','u','b','/','c'], 1⟩, ⟨['b'], 2⟩], []⟩, ['m','a','t']⟩ where
+  notRaw := by decide
+  names := by unfold NormNames; decide +kernel
+  namesRel := by unfold NormRel; decide +kernel
+  pfx := by unfold NormRel; decide +kernel
+  folder := by unfold FolderOK NormRel; decide +kernel
+  exact := by decide +kernel
 
 end C19
